@@ -111,7 +111,7 @@ def handle (ws : List String) : String :=
   | ["class", es] =>
     match parseExpr es with
     | some e =>
-      s!"wf={boolStr e.WF} nn={boolStr e.NoNestedMarks} flat={boolStr e.Flat} chains={e.chains} marked={e.markedChains} markfree={boolStr (!e.hasAnyMark)} nested1={boolStr e.NestedSingle}"
+      s!"wf={boolStr e.WF} nn={boolStr e.NoNestedMarks} flat={boolStr e.Flat} chains={e.chains} marked={e.markedChains} markfree={boolStr (!e.hasAnyMark)} nested1={boolStr e.NestedSingle} prenested={boolStr e.PreNested}"
     | none => "bad-op"
   | ["mode", a, b] =>
     match boolOf a, boolOf b with
